@@ -500,6 +500,8 @@ class World(object):
             how = rng.randrange(3)
             mapping = dict(pairs) if how == 0 else collections.OrderedDict(pairs) if how == 1 else _Map(pairs)
             self.paras.append(Deb822ParagraphElement.from_dict(mapping))
+            if isinstance(mapping, dict):           # the caller's mapping is the caller's: emptying it afterwards changes nothing
+                mapping.clear()
             return
         if op == "kv":
             p = c["p"] - 1
@@ -507,10 +509,13 @@ class World(object):
             if c["x"] == "rev":
                 kvs = kvs[::-1]
             self.paras[p] = Deb822ParagraphElement.from_kvpairs(kvs)
+            del kvs[:]                              # ... and so is the list handed to from_kvpairs
             return
         if op == "join":
             p, q = c["p"] - 1, c["j"] - 1
-            new = Deb822ParagraphElement.from_kvpairs(self.kvs(p) + self.kvs(q))
+            both = self.kvs(p) + self.kvs(q)
+            new = Deb822ParagraphElement.from_kvpairs(both)
+            both.reverse()
             self.paras[p] = new
             del self.paras[q]
             return
